@@ -199,20 +199,27 @@ class C07Monitor(explore.Monitor):
       rdiff = ["raw reopen failed: %r" % (ex,)]
     detail = {"stored": stored[:6], "diff": d, "col_types": types,
               "round_trip_faithful": bool(explained), "encoded_vs_raw_reopen": rdiff}
+    clause = "C07.no_stored_actions" if stored else "C07.same_data"
     if not explained:
       try:
         detail["loaded_delta"] = loaded_delta(e, saved)
       except Exception as ex:
         detail["loaded_delta"] = ["not computed: %r" % (ex,)]
-    return [("C07.no_stored_actions" if stored else "C07.same_data", detail)]
+      if detail["loaded_delta"]:
+        # one failure per kind of change, kinds that are not known findings first (only the first
+        # failure of a history is shrunk and reported)
+        known = set(k.get("match", {}).get("class") for k in common.load_known_findings("C07"))
+        kinds = sorted(detail["loaded_delta"], key=lambda k: ("round-trip-changes|" + k in known, k))
+        return [(clause, dict(detail, delta=k)) for k in kinds]
+    return [(clause, detail)]
 
   def classify(self, clause, detail, bundle, history):
     if clause == "C07.loads":
       return "loads|" + detail.get("error", "").split(":")[0]
     if detail.get("round_trip_faithful"):
       return "live-formula-values-were-stale(C05)"
-    if detail.get("loaded_delta"):
-      return "round-trip-changes|" + ";".join(detail["loaded_delta"][:4])
+    if detail.get("delta"):
+      return "round-trip-changes|" + detail["delta"]
     kinds = set()
     for line in detail.get("diff", []):
       m = describe_cell_diff(line)
@@ -259,12 +266,15 @@ def loaded_delta(e, saved, limit=8):
         same = type(x) is type(y) and (x == y or (x != x and y != y) or _kind(x).startswith("Error"))
         if _kind(x) != _kind(y) or not same:
           if _kind(x) == _kind(y) and _kind(x).startswith("Error"): continue
-          if _is_formula(e, t, cid): continue      # formula cells are recomputed by Calculate
           ctype = _col_type(e.schema, t, cid)
           kx, ky = _kind(x), _kind(y)
-          if kx.startswith("Error(") and ky.startswith("Error(no error object"):
+          if kx.startswith("Error(") and ky.startswith("Error("):
+            if _is_formula(e, t, cid): continue    # formula cells are recomputed by Calculate
             what = "data-cell-error-object-lost"
           else:
+            plain = ("list", "tuple", "str", "int", "float", "bool", "NoneType")
+            if _is_formula(e, t, cid) and not (kx in plain and ky in plain):
+              continue       # rich objects in formula cells (RecordList, ...) are recomputed anyway
             what = "%s:%s->%s" % (ctype, kx, ky)
             if kx == ky: what += "(value)"
           out.add(what)
